@@ -56,3 +56,41 @@ Example C04_example :
                SlStore 0; SlEvict [1%N]; SlStore 1; SlArrive 2%N; SlLookup 2] = Some s /\
             nth_error (sy_reqs N N s) 2 = Some (mkSysReq N N 2%N (SpDone N 14%N true)).
 Proof. eexists. split; reflexivity. Qed.
+
+(* ------------------------------------------------------------------ with the data: the caching proxy ------------ *)
+(* The theorems above are about every interleaving of an abstract system.  Router/Cached.v is the sequential
+   composition with the DATA: rules, cacheCtl.Get/Store (real cache key), forward (the reply's question is checked),
+   TTL ageing, EDNS and header fix-ups.  In every state reachable by any history of well-formed requests, prefetches
+   (any question / client / upstream), clock ticks, collections and evictions, the response to a supported query [m] of
+   [client] carries either no answer / authority records at all (REFUSED, a reject rule's rcode, SERVFAIL), or exactly
+   the answer / authority records and the rcode of a reply that some upstream gave to a query carrying the client's OWN
+   lower-cased question, asked on behalf of a client with the same group label — as received (a miss), or TTL-aged by
+   SubtractTTL (a hit).  No other question's records can reach the client. *)
+From Mos Require Import Codec.Msg Codec.WfProofs Router.Rules Router.Edns Router.Router Cache.CachePolicy Router.Cached
+  Router.CachedProofs.
+Theorem C04_own_answer_cached_proxy : forall matches rules ecs up (mark : addr -> list N) maxttl,
+  (forall u w r, up u w = UReply r -> count_opt (m_ar r) <= 1) ->
+  (forall c, bytes (mark c)) ->
+  forall (clk : N) (evs : list cev) (t ts eps : Z) (m : msg) (client : addr),
+  Forall cev_wf evs -> wf_msg m -> unsupported m = false ->
+  let st := fst (crun matches rules ecs up (real_ckey mark) maxttl (init_state clk) evs) in
+  let r := co_resp (snd (handle_c matches rules ecs up (real_ckey mark) maxttl st t ts eps m client)) in
+  (m_an r = [] /\ m_ns r = []) \/
+  exists q qs u c rep,
+    m_qs m = q :: qs /\ mark c = mark client /\
+    up u (pack_req ecs (lower_q q) c) = UReply rep /\ reply_question_ok (lower_q q) rep = true /\
+    h_rcode (m_hdr r) = h_rcode (m_hdr rep) /\
+    ((m_an r = m_an rep /\ m_ns r = m_ns rep) \/
+     exists delta, m_an r = map (sub_rr delta) (m_an rep) /\ m_ns r = map (sub_rr delta) (m_ns rep)).
+Proof.
+  intros matches rules ecs up mark maxttl H1 Hm clk evs t ts eps m client Hev Hwm Hu st r.
+  pose proof (real_ckey_inj mark Hm) as Hinj.
+  assert (Hi : cinv ecs up (real_ckey mark) st)
+    by (apply (crun_inv matches rules ecs up (real_ckey mark) maxttl H1 Hinj _ Hev); apply cinv_init).
+  destruct (handle_c_own_answer matches rules ecs up (real_ckey mark) maxttl Hinj st t ts eps m client Hi Hwm Hu)
+    as [L|(q & qs & u & c & rep & Hq & Hk & Hup & Hok & Hrc & Hrec)]; [left; exact L|].
+  right. exists q, qs, u, c, rep. split; [exact Hq|]. split; [|tauto].
+  apply (real_ckey_mark mark Hm (lower_q q) c client); [|exact Hk].
+  destruct Hwm as (_ & Fq & _). rewrite Hq in Fq. apply Router.RouterProofs.lower_q_wf. now inversion Fq.
+Qed.
+Print Assumptions C04_own_answer_cached_proxy.
